@@ -7,6 +7,8 @@ the result lands in r0; (R08.d) exactly one call per path, an unregistered id re
 for the interpreter, compile time for both compilers); (R08.e) r6-r10 are unchanged across the
 call; (R08.f) the x86 stack is 16-byte aligned at the call instruction at every local-call depth
 (prologue delta, per-local-call delta and call-site pushes accounted from the SysV entry state)."""
+import re
+
 import clmodel
 import symex
 from facts import walk, strip, callee_path
@@ -38,7 +40,18 @@ def _name_site(F, fn_path, callee_suffix, argi):
             if len(ids) == 1:
                 name_id = ids[0]
     if name_id is None:
-        return None
+        # the name may be produced inside a closure handed to a bulk registration (`symbols(iter.map(..))`):
+        # take the only `format!` of the function and its closures
+        sites = []
+        for pth, f2 in F.fns.items():
+            if (pth == fn_path or pth.startswith(fn_path + "::{closure")) and f2.get("thir"):
+                for i in walk(f2["thir"]["body"]):
+                    if i.get("k") == "call" and (callee_path(i) or "").endswith("fmt::format") and i.get("snip"):
+                        m = symex._FMT_RE.match(i["snip"])
+                        if m and "helper" in m.group(1):
+                            vs = [(x.get("name"), x.get("ty"), x.get("id")) for x in walk(i) if x.get("k") in ("var", "upvar") and x.get("name") != "args"]
+                            sites.append({"template": m.group(1), "args": [(a, b) for a, b, _ in vs], "arg_ids": [c for _, _, c in vs]})
+        return sites[0] if len(sites) == 1 else None
     for n in walk(fn["thir"]["body"]):
         if n.get("k") != "block":
             continue
@@ -52,6 +65,28 @@ def _name_site(F, fn_path, callee_suffix, argi):
                         vs = [(x.get("name"), x.get("ty"), x.get("id")) for x in walk(i) if x.get("k") in ("var", "upvar") and x.get("name") != "args"]
                         return {"template": m.group(1), "args": [(a, b) for a, b, _ in vs], "arg_ids": [c for _, _, c in vs]}
     return None
+
+
+def helper_symbol_rules(rep, cc):
+    """R08.k: registration name == import name (also an obligation of C12: an unresolved import panics inside cranelift-jit)"""
+    rk = rep.rule("R08.k", "Cranelift: the symbol name under which helper k is registered == the import name declared for key k; the func ref is filed under k", floor=3)
+    reg_site = _name_site(cc.F, "cranelift::CraneliftCompiler::new", "JITBuilder::symbol", 1)
+    dec_site = _name_site(cc.F, "cranelift::CraneliftCompiler::build_function_prelude", "::declare_function", 1)
+    norm = lambda t: re.sub(r"\{[A-Za-z_0-9]*(:[^}]*)?\}", lambda m: "{" + (m.group(1) if m.group(1) and m.group(1) != ":" else "") + "}", t)
+    rep.ob(rk, "template", reg_site is not None and dec_site is not None and norm(reg_site["template"]) == norm(dec_site["template"]),
+           "format template of the helper symbol name at registration and at import declaration",
+           expected="identical templates", found=[reg_site and reg_site["template"], dec_site and dec_site["template"]])
+    rep.ob(rk, "argument", reg_site is not None and dec_site is not None and len(reg_site["args"]) == 1 and reg_site["args"] == dec_site["args"]
+           and reg_site["args"][0][1] in ("&u32", "u32"),
+           "argument formatted into the name", expected="the helper key (&u32) at both sites", found=[reg_site and reg_site["args"], dec_site and dec_site["args"]])
+    ins = None
+    fnp = cc.F.fns.get("cranelift::CraneliftCompiler::build_function_prelude")
+    if fnp and dec_site:
+        for n in walk(fnp["thir"]["body"]):
+            if n.get("k") == "call" and (callee_path(n) or "").endswith("::insert") and "helper_func_refs" in repr(n["args"][0])[:2000]:
+                ins = [x.get("id") for x in walk(n["args"][1]) if x.get("k") in ("var", "upvar")]
+    rep.ob(rk, "filed-under", bool(ins) and dec_site is not None and ins == dec_site["arg_ids"],
+           "key under which the declared func ref is stored", expected="the key formatted into the import name", found=ins)
 
 
 def run(rep, tier):
@@ -197,22 +232,11 @@ def run(rep, tier):
         rep.ob(rc, "call", good, "Cranelift helper call translation", expected="one call with (r1..r5), result defines r0, key imm as u32", found=found)
         ps1 = cm.paths(CALL, 0, 1)
         rep.ob(rc, "local-call", bool(ps1) and all(p["err"] == "Err" for p in ps1), "Cranelift translation of a local call", expected="Err", found=[p["err"] for p in ps1])
-        rk = rep.rule("R08.k", "Cranelift: the symbol name under which helper k is registered == the import name declared for key k; the func ref is filed under k", floor=3)
-        reg_site = _name_site(cc.F, "cranelift::CraneliftCompiler::new", "JITBuilder::symbol", 1)
-        dec_site = _name_site(cc.F, "cranelift::CraneliftCompiler::build_function_prelude", "::declare_function", 1)
-        rep.ob(rk, "template", reg_site is not None and dec_site is not None and reg_site["template"] == dec_site["template"],
-               "format template of the helper symbol name at registration and at import declaration",
-               expected="identical templates", found=[reg_site and reg_site["template"], dec_site and dec_site["template"]])
-        rep.ob(rk, "argument", reg_site is not None and dec_site is not None and len(reg_site["args"]) == 1 and reg_site["args"] == dec_site["args"]
-               and reg_site["args"][0][1] in ("&u32", "u32"),
-               "argument formatted into the name", expected="the helper key (&u32) at both sites", found=[reg_site and reg_site["args"], dec_site and dec_site["args"]])
-        ins = None
-        fnp = cc.F.fns.get("cranelift::CraneliftCompiler::build_function_prelude")
-        if fnp and dec_site:
-            for n in walk(fnp["thir"]["body"]):
-                if n.get("k") == "call" and (callee_path(n) or "").endswith("::insert") and "helper_func_refs" in repr(n["args"][0])[:2000]:
-                    ins = [x.get("id") for x in walk(n["args"][1]) if x.get("k") in ("var", "upvar")]
-        rep.ob(rk, "filed-under", bool(ins) and dec_site is not None and ins == dec_site["arg_ids"],
-               "key under which the declared func ref is stored", expected="the key formatted into the import name", found=ins)
+        helper_symbol_rules(rep, cc)
+    # compiled code bakes helper addresses in: a call reaches the function registered under k only if
+    # compiling always rebuilds from the current helper table (the rule is C10's R10.h)
+    import props.c10 as c10
+    c10._compile_rules(rep, cx)
+    c10._compile_rules(rep, Ctx(rep, "cranelift"), tag="[cranelift]")
     rep.trust("SysV AMD64 ABI (argument registers, callee-saved set, 16-byte alignment at call)", "x86model.py / clmodel.py", "Cranelift's own ABI lowering")
     rep.assume("helpers are `fn(u64,u64,u64,u64,u64) -> u64` compiled for the C ABI of the host")
